@@ -18,7 +18,7 @@ MANIFEST = {
              'Equality "as numbers" beyond real-arithmetic identity (summation order) is out of scope.'),
 }
 EXPLANATION = 'Whole-step SVN: argument terms at the consist call, accumulator relations with the same dt, getter terms.'
-RULES = ['C11-1.handoff', 'C11-2.accum', 'C11-3.dt', 'C11-4.getters', 'C11-5.loco', 'C11-6.rollup']
+RULES = ['C11-1.handoff', 'C11-2.accum', 'C11-3.dt', 'C11-4.getters', 'C11-5.loco', 'C11-6.rollup', 'C11-7.init']
 ASSUMPTIONS = ['identities over the reals']
 
 SIMS = ['SetSpeedTrainSim::solve_step', 'SpeedLimitTrainSim::solve_step']
@@ -34,6 +34,7 @@ def run(ctx):
     from .C01 import rollups
     from .common import RuleProxy
     rollups(RuleProxy(ctx, {'C01-5.rollup': 'C11-6.rollup'}))
+    initial_energies(ctx)
     eng = engine(ctx)
     n = 0
     for fid in SIMS:
@@ -230,3 +231,36 @@ def getters(ctx):
                 ok = v == 'PROVED'
         ctx.check(ok, 'C11-4.getters', 'SpeedLimitTrainSimVec::' + g, 'vector getter is the Σ over the trains of the element getter',
                   'vector getter term %s' % show(t, va.names)[:300], ctx.where(vb))
+
+
+def initial_energies(ctx):
+    """C11-7.init: cumulative energies agree across levels only if they start from the same value: every `energy_*` field of
+    every state struct (train, consist, locomotive, components) is zero in the state a simulation starts from (Default, and
+    TrainState::new which fills the rest from it)."""
+    R = 'C11-7.init'
+    prog = ctx.prog
+    eng = engine(ctx)
+    n = 0
+    for name, tds in sorted(prog.types.items()):
+        for td in tds:
+            if td.test or td.kind != 'struct' or not name.endswith('State'):
+                continue
+            ef = [f['name'] for f in td.fields if f.get('name') and f['name'].startswith('energy_')]
+            if not ef:
+                continue
+            ctors = [fid for fid in ('<%s as Default>::default' % name, '%s::new' % name) if fid in prog.by_id and not prog.by_id[fid].test]
+            if not ctors:
+                ctx.unproved(R, name, 'no Default / new body found for a state type with energy accumulators'); continue
+            for fid in ctors:
+                b = prog.by_id[fid]
+                an = analysis_or_fail(ctx, R, b)
+                if an is None:
+                    continue
+                r = an.ret()
+                f = dict(r[2]) if r[0] == 'agg' else {}
+                if not f:
+                    ctx.unproved(R, fid, 'does not return a struct literal: %s' % show(r, an.names)[:160], ctx.where(b)); continue
+                n += 1
+                bad = {k: show(f.get(k), an.names)[:40] if f.get(k) is not None else None for k in ef if f.get(k) != ZERO}
+                ctx.check(not bad, R, fid, 'all %d energy accumulators start at zero' % len(ef), 'accumulators that do not start at zero: %s' % bad, ctx.where(b))
+    ctx.floor('state constructors with energy accumulators', n, 8)
